@@ -2,9 +2,10 @@ import Std.Data.HashMap
 import Driver.Util
 import Driver.C16
 import Driver.C08
+import Driver.C02
 open Driver
 
-def allEntries : List Entry := Driver.C16.entries ++ Driver.C08.entries
+def allEntries : List Entry := Driver.C16.entries ++ Driver.C08.entries ++ Driver.C02.entries
 
 def table : Std.HashMap String Handler :=
   allEntries.foldl (fun m e => m.insert (e.kind ++ " " ++ e.op) e.run) {}
